@@ -488,14 +488,19 @@ theorem hashPlane_seam_north_west {n : Nat} (hn2 : 2 ≤ n) (hn30 : n < 2 ^ 30) 
     (by push_cast; linarith) (by push_cast; linarith), e]
   have hf0 : 0 ≤ 1 / 2 * (n : ℝ) * (Y - 1) - a := by linarith
   have hf1 : 1 / 2 * (n : ℝ) * (Y - 1) - a < 1 := by linarith
-  have ha : 2 * a + 3 < n := by
-    have : 2 * (a : ℝ) + 3 < n := by nlinarith
+  have ha : 2 * a + 1 < n := by
+    have : 2 * (a : ℝ) + 1 < n := by nlinarith
+    exact_mod_cast this
+  have ha' : 1 - (1 / 2 * (n : ℝ) * (Y - 1) - a) ≤ 1 / 2 * (n : ℝ) * (Y - 1) - a → 2 * a + 2 < n := by
+    intro hc
+    have : 2 * (a : ℝ) + 2 < n := by nlinarith
     exact_mod_cast this
   generalize 1 / 2 * (n : ℝ) * (Y - 1) - a = f at *
   unfold dealWith1x1Box
   simp only [r_le, r_ge, r_one, le_refl, decide_true, if_true]
   by_cases c2 : 1 - f ≤ f
-  · simp only [c2, decide_true, if_true]
+  · have := ha' c2
+    simp only [c2, decide_true, if_true]
     exact hashTail_phantom0 _ _ (by omega) (by omega) (by omega) (by
       have : (1 : ℕ) >>> 1 = 0 := rfl
       rw [this]; omega)
@@ -503,5 +508,87 @@ theorem hashPlane_seam_north_west {n : Nat} (hn2 : 2 ≤ n) (hn30 : n < 2 ^ 30) 
     exact hashTail_phantom0 _ _ (by omega) (by omega) (by omega) (by
       have : (0 : ℕ) >>> 1 = 0 := rfl
       rw [this]; omega)
+
+/-- exact witness at `n = 2`: the plane point `(1/4, 5/4)` (west seam of facet 0: `lon = 0`) panics in the dev profile -/
+theorem seam_witness_debug : hashPlane true 2 ((1 : ℝ) / 4) (5 / 4) = none := by
+  have := hashPlane_seam_north_west (n := 2) (Y := 5 / 4) (by norm_num) (by norm_num) (by norm_num) (by norm_num)
+  rwa [show (5 : ℝ) / 4 - 1 = 1 / 4 by norm_num] at this
+
+/-- … and in the release profile the same point gets the cell number `2^64 − 1` (not `< 12·n² = 48`) -/
+theorem seam_witness_release : hashPlane false 2 ((1 : ℝ) / 4) (5 / 4) = some (2 ^ 64 - 1, 1 / 4, 1 / 4) := by
+  rw [hashPlane_box false (n := 2) (by norm_num) (by norm_num) (by norm_num) (by norm_num) (by norm_num) (by norm_num) 0 4
+    (by norm_num) (by norm_num) (by norm_num) (by norm_num)]
+  norm_num [dealWith1x1Box, r_le, r_ge, r_one, hashTail, sub64, tri4, Nat.shiftRight_eq_div_pow]
+
+/-- exact witness at `n = 2`, facet 1: the plane point `(9/4, 5/4)` (west seam of facet 1: `lon = π/2`) is given to
+    cell 0 in both profiles, whose centre is `(1, 3/2)`: the point is not in the (closed) cell -/
+theorem seam_witness_q1 (debug : Bool) :
+    hashPlane debug 2 ((9 : ℝ) / 4) (5 / 4) = some (0, 1 / 4, 1 / 4) ∧
+    centerOfProjectedCell (α := ℝ) debug 2 0 = some (1, 3 / 2) ∧
+    ¬ (|(9 : ℝ) / 4 - 1| + |(5 : ℝ) / 4 - 3 / 2| ≤ 1 / 2) ∧ ¬ (|(9 : ℝ) / 4 - 8 - 1| + |(5 : ℝ) / 4 - 3 / 2| ≤ 1 / 2) := by
+  refine ⟨?_, ?_, ?_, ?_⟩
+  · rw [hashPlane_box debug (n := 2) (by norm_num) (by norm_num) (by norm_num) (by norm_num) (by norm_num) (by norm_num) 2 4
+      (by norm_num) (by norm_num) (by norm_num) (by norm_num)]
+    norm_num [dealWith1x1Box, r_le, r_ge, r_one, hashTail, sub64, tri4, Nat.shiftRight_eq_div_pow]
+  · have hRI : RingIndexExact 2 := by unfold RingIndexExact; decide +kernel
+    have := center_eq debug (n := 2) (r := 0) (i := 0) (by norm_num) (by norm_num) hRI (by norm_num) (by decide)
+    have e1 : ringStart 2 0 + 0 = 0 := by decide
+    have e2 : cxI 2 0 0 = 2 := by decide
+    have e3 : cyI 2 0 = 3 := by decide
+    rw [e1, e2, e3] at this
+    rw [this]; norm_num
+  · rw [abs_of_pos (by norm_num), abs_of_neg (by norm_num)]; norm_num
+  · rw [abs_of_neg (by norm_num), abs_of_neg (by norm_num)]; norm_num
+
+/-- exact witness at `n = 2`, east seam of facet 0 (reached from negative longitudes): the plane point `(7/4, 5/4)` is
+    given to cell 0 (centre `(1, 3/2)`), which does not contain it -/
+theorem seam_witness_east (debug : Bool) :
+    hashPlane debug 2 ((7 : ℝ) / 4) (5 / 4) = some (0, 3 / 4, 1 / 4) ∧
+    ¬ (|(7 : ℝ) / 4 - 1| + |(5 : ℝ) / 4 - 3 / 2| ≤ 1 / 2) := by
+  constructor
+  · rw [hashPlane_box debug (n := 2) (by norm_num) (by norm_num) (by norm_num) (by norm_num) (by norm_num) (by norm_num) 1 4
+      (by norm_num) (by norm_num) (by norm_num) (by norm_num)]
+    norm_num [dealWith1x1Box, r_le, r_ge, r_one, hashTail, sub64, tri4, Nat.shiftRight_eq_div_pow]
+  · rw [abs_of_pos (by norm_num), abs_of_neg (by norm_num)]; norm_num
+
+/-- the base-cell corner `lon = 0`, `lat = asin(2/3)` projects onto the plane point `(0, 1)` -/
+theorem proj_corner : proj (α := ℝ) 0 (Real.arcsin (2 / 3)) = some (0, 1) := by
+  have hpi := Real.pi_pos
+  have h0 : 0 ≤ Real.arcsin (2 / 3) := Real.arcsin_nonneg.mpr (by norm_num)
+  have hle : Real.arcsin (2 / 3) ≤ Real.pi / 2 := Real.arcsin_le_pi_div_two _
+  have hchk : checkLat (α := ℝ) (Real.arcsin (2 / 3)) = true := by
+    unfold checkLat; rw [r_le, r_le, r_hpi]; simp; constructor <;> linarith
+  obtain ⟨k, hk, hdec, hm1, hp1⟩ := pm1OffsetDecompose_real 0 (le_refl _) (by norm_num)
+  have hk0 : k = 0 := by
+    push_cast at hm1 hp1
+    have : (k : ℝ) < 1 := by linarith
+    have : k < 1 := by exact_mod_cast this
+    omega
+  subst hk0
+  unfold proj
+  have habs_lat : Num.abs (Real.arcsin (2 / 3)) = Real.arcsin (2 / 3) := by rw [r_abs, abs_of_nonneg h0]
+  have hs_lat : Num.signBit (Real.arcsin (2 / 3)) = false := by rw [r_signBit]; simpa using h0
+  have habs0 : Num.abs (0 : ℝ) = 0 := by rw [r_abs, abs_zero]
+  have hs0 : Num.signBit (0 : ℝ) = false := by rw [r_signBit]; simp
+  have hreg : isInEquatorialRegion (α := ℝ) (Real.arcsin (2 / 3)) = true := by
+    unfold isInEquatorialRegion; rw [r_le, r_transitionLat]; simp
+  simp only [hchk, Bool.not_true, Bool.false_eq_true, if_false, habs_lat, hs_lat, habs0, hs0, r_fourOverPi, zero_mul, hdec,
+    hreg, if_true]
+  unfold applyOffsetAndSigns projCea
+  simp only [r_orSign_false, r_ofNat, r_sin, r_ootz]
+  rw [Real.sin_arcsin (by norm_num) (by norm_num)]
+  norm_num
+
+/-- **F3 on the sphere, exact witness for every `n ≥ 2`**: `ring::hash(nside, 0, asin(2/3))` panics in the dev profile
+    (the point is the corner shared by base cells 0, 3, 4: it is in the *equatorial* region for the code's test
+    `|lat| ≤ TRANSITION_LATITUDE`, and on the west seam of facet 0) -/
+theorem ring_hash_corner_panics {n : Nat} (hn2 : 2 ≤ n) (hn30 : n < 2 ^ 30) :
+    Ring.hash true n (0 : ℝ) (Real.arcsin (2 / 3)) = none := by
+  have hn0 : (2 : ℝ) ≤ n := by exact_mod_cast hn2
+  have := hashPlane_seam_north_west (n := n) (Y := 1) hn2 hn30 (le_refl _) (by linarith)
+  rw [show (1 : ℝ) - 1 = 0 by norm_num] at this
+  unfold Ring.hash
+  rw [hashWithDlDh_eq, proj_corner]
+  simp only [Option.bind_some, this, Option.map_none]
 
 end Hpx.RingReal
